@@ -296,8 +296,47 @@ class ModelMixin:
             return v
         raise Unsupported("sorted")
 
+    def _short_circuit(self, d, stop_on_true):
+        """all(gen) / any(gen) over a generator expression: elements are produced one at a time and consumption STOPS at the first
+        falsy (all) / truthy (any) element - later elements are never evaluated.  Executed as the equivalent loop with an early return."""
+        from .symex import ReturnSig
+        node = d.node
+        test = node.elt if stop_on_true else ast.UnaryOp(ast.Not(), node.elt)
+        body = [ast.If(test, [ast.Return(ast.Constant(stop_on_true))], [])]
+        for g in reversed(node.generators):
+            for cond in reversed(g.ifs):
+                body = [ast.If(cond, body, [])]
+            body = [ast.For(g.target, g.iter, body, [], None)]
+        body.append(ast.Return(ast.Constant(not stop_on_true)))
+        mod = ast.Module(body, [])
+        ast.fix_missing_locations(mod)
+        for n_ in ast.walk(mod):
+            if not hasattr(n_, "lineno"):
+                n_.lineno = n_.end_lineno = getattr(node, "lineno", 0)
+                n_.col_offset = n_.end_col_offset = 0
+        try:
+            self.exec_block(mod.body, d.env)
+        except ReturnSig as r:
+            return r.value
+        raise Unsupported("all/any desugaring fell through")
+
+    def b_all(self, a, k):
+        v = a[0]
+        if isinstance(v, Delayed) and getattr(v, "node", None) is not None and v.forced is None:
+            return self._short_circuit(v, stop_on_true=False)
+        if isinstance(v, Delayed):
+            v = self.force(v)
+        if isinstance(v, (PyList, PyTuple)):
+            for x in v.items:
+                if not self.truth(x):
+                    return False
+            return True
+        raise Unsupported("all")
+
     def b_any(self, a, k):
         v = a[0]
+        if isinstance(v, Delayed) and getattr(v, "node", None) is not None and v.forced is None:
+            return self._short_circuit(v, stop_on_true=True)
         if isinstance(v, Delayed):
             v = self.force(v)
         if isinstance(v, PyList):
